@@ -363,12 +363,64 @@ func onceProp(c OnceCase, r *pbt.R) error {
 			cc.MapToCache(map[string]int{"func": -5, "other": i}, time.Millisecond)
 		}
 	}
+	// other result types, first result the zero value (c.Zero) or not: a defined string type (its empty value is a value like
+	// any other: the cache refuses only an empty value of type string itself), a pointer (nil), bool (false), an empty struct
+	if calls <= 64 {
+		seven, nine := 7, 9
+		var firstP *int
+		firstL, firstB := onceLabel(""), false
+		if !c.Zero {
+			firstP, firstL, firstB = &seven, "first", true
+		}
+		if err := onceTyped("a defined string type", firstL, "later", calls); err != nil {
+			return err
+		}
+		if err := onceTyped("*int", firstP, &nine, calls); err != nil {
+			return err
+		}
+		if err := onceTyped("bool", firstB, !firstB, calls); err != nil {
+			return err
+		}
+		if err := onceTyped("struct{}", struct{}{}, struct{}{}, calls); err != nil {
+			return err
+		}
+	}
 	r.NonTrivialIf(calls >= 1, "called")
 	if calls >= 2 {
 		r.Label("repeated calls")
 	}
 	if c.Zero && calls >= 2 {
 		r.Label("repeated calls after a zero-valued first result")
+	}
+	return nil
+}
+
+type onceLabel string
+
+// onceTyped: Once on a fresh non-expiring cache of T, calls times; the first run returns first, any further run (which must
+// not happen) later.
+func onceTyped[T comparable](desc string, first, later T, calls int) error {
+	cc := cache.New[string, T](cache.NoExpiration, 0)
+	count := 0
+	for i := 1; i <= calls; i++ {
+		before := count
+		got := gogu.Once[string, T, int](cc, func() T {
+			count++
+			if count == 1 {
+				return first
+			}
+			return later
+		})
+		want := 0
+		if i == 1 {
+			want = 1
+		}
+		if ran := count - before; ran != want {
+			return fmt.Errorf("Once with results of %s (first result %#v), %d calls on a fresh non-expiring cache: call %d ran the callback %d time(s), want %d", desc, first, calls, i, ran, want)
+		}
+		if got != first {
+			return fmt.Errorf("Once with results of %s, %d calls: call %d returned %#v, want the first result %#v", desc, calls, i, got, first)
+		}
 	}
 	return nil
 }
@@ -855,7 +907,7 @@ func TestProp(t *testing.T) {
 		},
 		&pbt.Check[OnceCase]{
 			Name: "once",
-			Rule: "Once(cache, fn) called k times in a row on a fresh non-expiring cache with a new counting closure per call returning a fresh value (the first run returns either a non-zero value or the zero value 0 of the int result type); " +
+			Rule: "Once(cache, fn) called k times in a row on a fresh non-expiring cache with a new counting closure per call returning a fresh value (the first run returns either a non-zero value or the zero value 0 of the int result type; up to 64 calls the same with results of a defined string type - empty or not -, *int - nil or not -, bool and struct{}); " +
 				"enumerated: every k in 0..12 (thorough 0..64) x {non-zero, zero first result} x {NoExpiration cache, cache with a default lifetime of 0, -1s, the most negative Duration, -2ns, one hour or the largest Duration, swept by DeleteExpired after every call and offered a bulk load (MapToCache) that names the memo's key, which must be refused}; random: k in 0..400. Oracle: exactly one invocation (during the first call), every call returns the first result. " +
 				"Non-trivial = at least one call was made.",
 			Enum: func(s pbt.Src, thorough bool) OnceCase {
